@@ -28,21 +28,23 @@ type Desc struct {
 	Seed int64  `json:"seed,omitempty"`
 
 	// stress: one producer/consumer run over Chunks chunks
-	Chunks       int  `json:"chunks,omitempty"`
-	Bounds       bool `json:"bounds,omitempty"`      // producer counters: emptiness/depth bounds oracle + flow control (adds harness synchronisation)
-	MaxBacklog   int  `json:"max_backlog,omitempty"` // bounds mode: producer waits while this many chunks are untaken
-	Burst        int  `json:"burst,omitempty"`       // producer sleeps after every Burst chunks (consumer-fast regime)
-	CBurst       int  `json:"c_burst,omitempty"`     // consumer sleeps after every CBurst operations (producer-fast regime: backlog builds up)
-	BurstSleepUs int  `json:"burst_sleep_us,omitempty"`
-	PYieldPm     int  `json:"p_yield_pm,omitempty"` // per-mille Gosched after a producer operation (lin: both clients)
-	CYieldPm     int  `json:"c_yield_pm,omitempty"`
-	ReqPm        int  `json:"requeue_pm,omitempty"`    // consumer: per-mille put-back when it holds a chunk it just took
-	DepthPm      int  `json:"depth_pm,omitempty"`      // consumer: per-mille GetDepth
-	AllPm        int  `json:"dequeueall_pm,omitempty"` // consumer: per-mille DequeueAll (rest: Dequeue)
-	MaxHeld      int  `json:"max_held,omitempty"`      // consumer keeps up to this many taken chunks for put-back (>= 2: several put-backs outstanding at once)
-	Tail         bool `json:"requeue_tail,omitempty"`  // put back only the unread tail of what was taken (half of the put-backs)
-	ProdDepthPm  int  `json:"producer_depth_pm,omitempty"`
-	MaxPayload   int  `json:"max_payload,omitempty"`
+	Chunks       int   `json:"chunks,omitempty"`
+	Bounds       bool  `json:"bounds,omitempty"`      // producer counters: emptiness/depth bounds oracle + flow control (adds harness synchronisation)
+	MaxBacklog   int   `json:"max_backlog,omitempty"` // bounds mode: producer waits while this many chunks are untaken
+	Burst        int   `json:"burst,omitempty"`       // producer sleeps after every Burst chunks (consumer-fast regime)
+	CBurst       int   `json:"c_burst,omitempty"`     // consumer sleeps after every CBurst operations (producer-fast regime: backlog builds up)
+	BurstSleepUs int   `json:"burst_sleep_us,omitempty"`
+	PYieldPm     int   `json:"p_yield_pm,omitempty"` // per-mille Gosched after a producer operation (lin: both clients)
+	CYieldPm     int   `json:"c_yield_pm,omitempty"`
+	ReqPm        int   `json:"requeue_pm,omitempty"`    // consumer: per-mille put-back when it holds a chunk it just took
+	DepthPm      int   `json:"depth_pm,omitempty"`      // consumer: per-mille GetDepth
+	AllPm        int   `json:"dequeueall_pm,omitempty"` // consumer: per-mille DequeueAll (rest: Dequeue)
+	MaxHeld      int   `json:"max_held,omitempty"`      // consumer keeps up to this many taken chunks for put-back (>= 2: several put-backs outstanding at once)
+	Tail         bool  `json:"requeue_tail,omitempty"`  // put back only the unread tail of what was taken (half of the put-backs)
+	ProdDepthPm  int   `json:"producer_depth_pm,omitempty"`
+	MaxPayload   int   `json:"max_payload,omitempty"`
+	EmptyPm      int   `json:"empty_pm,omitempty"`    // per-mille of the chunks that are empty (non-nil, zero length), as the read loop enqueues for a read of only CR / escape sequences
+	DeepRounds   []int `json:"deep_rounds,omitempty"` // deep-queue rounds: the consumer lets this many chunks pile up (producer still enqueueing), then put-back + DequeueAll / Dequeue drains
 
 	// lin: Histories concurrent histories of at most MaxOps operations per client; history i of the
 	// batch is a pure function of (Seed, i) and of the values the queue returns
@@ -55,6 +57,7 @@ type Desc struct {
 	ReusePm int `json:"reuse_pm,omitempty"` // per-mille of sessions whose transport re-uses one read buffer
 
 	// seq: histories Lo..Hi-1 of length Len (base-6 numbering over Enqueue Dequeue DequeueAll Requeue GetDepth RequeueOldestHeld)
+	Ops int   `json:"ops,omitempty"` // 6, or 7 (with EnqueueEmpty)
 	Len int   `json:"len,omitempty"`
 	Lo  int64 `json:"lo,omitempty"`
 	Hi  int64 `json:"hi,omitempty"`
@@ -72,8 +75,12 @@ func gen(tier string, seed int64) []mon.Case {
 	}
 	nStress, chunks, nLin, perLin, maxLen := 32, 30000, 80, 100, 8
 	nChan, perChan := 16, 25
+	nDeep, deepChunks := 8, 60000
+	maxLenE := 6
 	if tier == "thorough" {
 		nChan, perChan = 80, 100
+		nDeep, deepChunks = 40, 90000
+		maxLenE = 7
 		nStress, chunks, nLin, perLin, maxLen = 160, 120000, 400, 250, 9
 	}
 	// every block below is a multiple of nWorkers cases, so that each kind meets every GOMAXPROCS
@@ -82,7 +89,8 @@ func gen(tier string, seed int64) []mon.Case {
 		d := Desc{Kind: "stress", Seed: r.Int63n(1 << 40), Chunks: chunks,
 			PYieldPm: pick(r, 0, 20, 200), CYieldPm: pick(r, 0, 20, 200),
 			ReqPm: pick(r, 50, 150, 300), DepthPm: pick(r, 20, 100), AllPm: pick(r, 20, 100, 250),
-			MaxHeld: pick(r, 1, 2, 3, 3), Tail: r.Intn(2) == 0, ProdDepthPm: pick(r, 0, 50, 200), MaxPayload: pick(r, 0, 8, 40)}
+			MaxHeld: pick(r, 1, 2, 3, 3), Tail: r.Intn(2) == 0, ProdDepthPm: pick(r, 0, 50, 200), MaxPayload: pick(r, 0, 8, 40),
+			EmptyPm: pick(r, 0, 0, 30, 200)}
 		// regimes: the consumer outruns the producer (queue mostly empty), the producer outruns the
 		// consumer (backlog), or both at full speed
 		switch r.Intn(3) {
@@ -99,6 +107,18 @@ func gen(tier string, seed int64) []mon.Case {
 		}
 		add("stress", d)
 	}
+	// deep queues: the producer runs unthrottled, the consumer lets 8192.. / 20000.. chunks pile up while
+	// the producer is still enqueueing, then Dequeue, put-back, DequeueAll / Dequeue drain on the deep
+	// queue; every produced byte must arrive and nobody may stay parked
+	for i := 0; i < nDeep; i++ {
+		d := Desc{Kind: "stress", Seed: r.Int63n(1 << 40), Chunks: deepChunks,
+			PYieldPm: pick(r, 0, 20), CYieldPm: pick(r, 0, 20),
+			ReqPm: pick(r, 20, 50), DepthPm: pick(r, 20, 100), AllPm: pick(r, 20, 100),
+			MaxHeld: pick(r, 1, 2, 3), ProdDepthPm: pick(r, 0, 50), MaxPayload: pick(r, 0, 8),
+			EmptyPm: pick(r, 0, 0, 30), Bounds: i%2 == 1}
+		d.DeepRounds = [][]int{{20000, 8192, 9000}, {8192, 20000, 8193}, {9000, 8192, 20000}, {20001, 8192, 12000}}[r.Intn(4)]
+		add("stress", d)
+	}
 	for i := 0; i < nLin; i++ {
 		add("lin", Desc{Kind: "lin", Seed: r.Int63n(1 << 40), Histories: perLin, MaxOps: 40, PYieldPm: pick(r, 0, 100, 400)})
 	}
@@ -106,16 +126,21 @@ func gen(tier string, seed int64) []mon.Case {
 		add("chan", Desc{Kind: "chan", Seed: r.Int63n(1 << 40), Histories: perChan, MaxOps: pick(r, 20, 40, 60), ErrPm: pick(r, 0, 60, 150, 150), ReusePm: 500})
 	}
 	// sequential: lengths 1..maxLen-2 in one case each ... the two longest lengths are split
-	for L := 1; L <= maxLen; L++ {
-		total := powOps(L)
-		parts := int64(1)
-		if total > 40000 {
-			parts = (total + 39999) / 40000
-		}
-		for p := int64(0); p < parts; p++ {
-			add("seq", Desc{Kind: "seq", Len: L, Lo: total * p / parts, Hi: total * (p + 1) / parts})
+	seqCases := func(base, maxLen int) {
+		for L := 1; L <= maxLen; L++ {
+			total := powOps(L, base)
+			parts := int64(1)
+			if total > 40000 {
+				parts = (total + 39999) / 40000
+			}
+			for p := int64(0); p < parts; p++ {
+				add("seq", Desc{Kind: "seq", Ops: base, Len: L, Lo: total * p / parts, Hi: total * (p + 1) / parts})
+			}
 		}
 	}
+	seqCases(seqOps, maxLen)
+	// second enumeration, 7 operations (EnqueueEmpty added); histories without an empty chunk are skipped
+	seqCases(seqOpsE, maxLenE)
 	return cs
 }
 
@@ -330,7 +355,9 @@ func init() {
 			"exactly one producer goroutine (Enqueue, GetDepth) and one consumer goroutine (Dequeue, DequeueAll, Requeue, GetDepth), as the channel uses the queue",
 			"Requeue is only called by the consumer with a chunk it took before (result of a Dequeue/DequeueAll: all of it, or the non-empty tail of the only chunk it holds) and has not put back since; it may hold several taken chunks (stress/lin: up to 3) and put them back one after the other, so several put-backs can be outstanding at once; sequential histories violating this are skipped",
 			"order of several outstanding put-backs: from the statement's words 'putting a chunk back at the front' and 'put-back chunks re-read first' every put-back becomes the first element, i.e. after Requeue(a), Requeue(b) the queue reads b, a, then the rest - through Dequeue and through DequeueAll alike (this is also what the unchanged library's prepend does); stress runs put back most-recently-taken first, which restores the producer's stream order; lin and sequential histories also put back the oldest held chunk (reference: the deque)",
-			"queue-level families: chunks are non-empty and never modified after Enqueue",
+			"queue-level families: chunks are never modified after Enqueue; a chunk may be EMPTY (non-nil, zero length: what the read loop enqueues for a transport read made only of carriage returns): it is one element like any other - Dequeue takes exactly one element and returns it (empty, non-nil, as the unchanged library does), depth counts it; DequeueAll of only empty chunks returns nothing, as nil or as an empty slice (bytes.Join); put-backs are non-empty in stress runs",
+			"deep queues: stress runs in which the consumer lets >= 8192 / >= 20000 chunks pile up while the unthrottled producer keeps enqueueing, then Dequeue, (producer refills), put-back(s), DequeueAll or a Dequeue drain; the reference is unchanged (unbounded or bounded, every produced byte arrives and no party stays parked)",
+			"channel level: a transport read made only of escape sequences is enqueued by the unchanged read loop as a NIL chunk (regexp ReplaceAll yields nil), which Read hands out as 'nothing' while the depth goes down by one; the per-element oracle allows exactly that and 'nothing' is only taken for 'empty' when the depth is 0",
 			"channel-level family (real channel.Channel, read loop as producer, Channel.Read/ReadAll as consumer): the scripted transport fails only with one non-EOF error value and never ends; a failing transport read takes nothing out of the queue and loses nothing (taken from the unchanged library: Read returns the error from Errs / the persisting-error flag and leaves the queue intact, ReadAll only the one from Errs), so every byte delivered comes out exactly once, in order, with CR and the escape sequences of a fixed family removed; a transport may re-use one read buffer across reads (transport.Implementation returns []byte and says nothing about ownership; the unchanged channel copies every chunk, so such a transport works); slices returned by Read/ReadAll belong to the caller and are re-compared at the end of the session",
 			"race detector: a report is attributed to the property when it occurs in a worker of this check; one deliberate canary race in harness code per worker proves the log pipeline and is excluded",
 			"linearizability: checker timeout (10 s per history) or disagreement between porcupine and the independent merge search is inconclusive, never a violation",
